@@ -73,6 +73,12 @@ def check_case(acc, src, mode, origin):
                     acc.violation("verbose-changes-outcome", {**case, **cfg}, {"quiet": _short(ref), "verbose": _short(s)})
                 continue
             _nv[v] = s
+            if v is not None:
+                # an option of one call must not leak into a later call that does not pass it
+                acc.count("default_after_option_checks")
+                d2 = base.parse(src, mode)
+                if d2.kind != "timeout" and d2.sig() != dsig:
+                    acc.violation("option-leaks-into-later-default-parse", {**case, **cfg}, {"default_before": _short(dsig), "default_after": _short(d2.sig())})
             if d.accepted:
                 if v >= need:
                     if s != dsig:
